@@ -42,7 +42,7 @@ def build_harness(workdir, race=False):
     os.makedirs(h)
     src = os.path.join(VERIF, "harness")
     for f in os.listdir(src):
-        if f.endswith(".go"):
+        if f.endswith(".go") or f.endswith(".json"):
             shutil.copy(os.path.join(src, f), h)
     with open(os.path.join(src, "go.mod.tmpl")) as f:
         mod = f.read().replace("@REPO@", REPO)
